@@ -25,6 +25,10 @@ class ClassInfo:
 
     def __init__(self, mods):
         self.methods, self.getters, self.setters = {}, {}, {}
+        self.base_init = None
+        for n in mods[0].body:
+            if isinstance(n, ast.FunctionDef) and n.name == '__init__':
+                self.base_init = n
         for cls in mods:     # base first, derived overrides
             for n in cls.body:
                 if not isinstance(n, ast.FunctionDef):
@@ -52,17 +56,21 @@ class Frame:
         self.params = dict(params)     # python name -> Lean Val text, or None when not expressible
         self.locals = {}               # name -> ast expr last assigned
         self.known_present = set()     # caches known non-None (inside `if self._x is not None:`)
+        self.aliases = {}              # local name -> 'data' | cache attribute name: the SAME array object as self.<attr>
 
 
 class Extract:
-    def __init__(self, info):
+    def __init__(self, info, callees=None):
         self.info = info
+        self.callees = callees or {}      # function name -> FunctionDef of module-level helpers whose bodies are inspected
         self.slice_ids = {}
         self.nsaved = 0
         self.depth = 0
 
     # ---------------------------------------------------------------- values
     def val(self, e, fr):
+        if isinstance(e, ast.Call) and ast.unparse(e.func) == 'float' and len(e.args) == 1 and not e.keywords:
+            e = e.args[0]
         if isinstance(e, ast.Constant) and isinstance(e.value, (int, float)) and not isinstance(e.value, bool) and e.value == 1:
             return 'Val.one', []
         if isinstance(e, ast.Name) and fr.params.get(e.id):
@@ -77,6 +85,84 @@ class Extract:
             self.slice_ids[key] = len(self.slice_ids)
         return self.slice_ids[key]
 
+    # ---------------------------------------------------------------- aliasing
+    INPLACE_METHODS = ('fill', 'sort', 'put', 'itemset', 'partition', 'resize', 'setfield', 'byteswap', 'clip')
+
+    def target_of(self, e, fr):
+        """which tracked array object does expression e denote (without copying)?  'data' | cache attr | None"""
+        if _is_self_attr(e, ('data',)):
+            return 'data'
+        if _is_self_attr(e, CACHES):
+            return e.attr
+        if isinstance(e, ast.Name) and e.id in fr.aliases:
+            return fr.aliases[e.id]
+        if isinstance(e, ast.Subscript):       # basic slicing returns a view
+            parts = e.slice.elts if isinstance(e.slice, ast.Tuple) else [e.slice]
+            if all(isinstance(p_, ast.Slice) or (isinstance(p_, ast.Constant) and p_.value is Ellipsis) for p_ in parts):
+                return self.target_of(e.value, fr)
+        return None
+
+    def write_through(self, tgt, kind):
+        """effect of an in-place modification of the array object `tgt` (kind: data-write kind for data)"""
+        if tgt == 'data':
+            return [f'Eff.dataWrite {kind}']
+        c = tgt.lstrip('_')
+        return [f'Eff.opaqueXY {XY[c]}'] if c in XY else [f'Eff.opaqueRT {RT[c]}']
+
+    def mutates_param(self, fn, idx, depth=0):
+        """does the module-level helper `fn` modify its idx-th positional parameter in place?"""
+        if depth > 3 or idx >= len(fn.args.args):
+            return False
+        name = fn.args.args[idx].arg
+        names = {name}
+        for n in ast.walk(fn):            # local aliases of the parameter
+            if isinstance(n, ast.Assign) and isinstance(n.value, ast.Name) and n.value.id in names:
+                for t in n.targets:
+                    if isinstance(t, ast.Name):
+                        names.add(t.id)
+        for n in ast.walk(fn):
+            if isinstance(n, (ast.Assign, ast.AugAssign)):
+                tg = n.targets if isinstance(n, ast.Assign) else [n.target]
+                for t in tg:
+                    base = t
+                    while isinstance(base, ast.Subscript):
+                        base = base.value
+                    if isinstance(base, ast.Name) and base.id in names and (isinstance(t, ast.Subscript) or isinstance(n, ast.AugAssign)):
+                        return True
+            if isinstance(n, ast.Call):
+                if isinstance(n.func, ast.Attribute) and isinstance(n.func.value, ast.Name) and n.func.value.id in names \
+                        and n.func.attr in self.INPLACE_METHODS:
+                    return True
+                for k in n.keywords:
+                    if k.arg == 'out' and isinstance(k.value, ast.Name) and k.value.id in names:
+                        return True
+                callee = self.callees.get(ast.unparse(n.func))
+                if callee is not None and callee is not fn:
+                    for j, a in enumerate(n.args):
+                        if isinstance(a, ast.Name) and a.id in names and self.mutates_param(callee, j, depth + 1):
+                            return True
+        return False
+
+    def call_side_effects(self, e, fr):
+        """in-place effects of a call on tracked arrays: x.fill(v), out=self.data, helper(self.data) that writes its argument"""
+        effs = []
+        if isinstance(e.func, ast.Attribute) and e.func.attr in self.INPLACE_METHODS:
+            tgt = self.target_of(e.func.value, fr)
+            if tgt is not None:
+                effs += self.write_through(tgt, '.setValue')
+        for k in e.keywords:
+            if k.arg == 'out':
+                tgt = self.target_of(k.value, fr)
+                if tgt is not None:
+                    effs += self.write_through(tgt, '.replace')
+        callee = self.callees.get(ast.unparse(e.func))
+        if callee is not None:
+            for j, a in enumerate(e.args):
+                tgt = self.target_of(a, fr)
+                if tgt is not None and self.mutates_param(callee, j):
+                    effs += self.write_through(tgt, '.replace')
+        return effs
+
     # ---------------------------------------------------------------- reads inside expressions
     def reads(self, e, fr):
         """effects of evaluating expression e (property reads, inlined self calls), in evaluation order.
@@ -88,6 +174,18 @@ class Extract:
             for a in list(e.args) + [k.value for k in e.keywords]:
                 paths = self.seq(paths, self.reads(a, fr))
             return self.seq(paths, self.inline_call(e, fr))
+        if isinstance(e, ast.Call) and ast.unparse(e.func) == 'super().__init__' and self.info.base_init is not None:
+            paths = [[]]
+            for a in list(e.args) + [k.value for k in e.keywords]:
+                paths = self.seq(paths, self.reads(a, fr))
+            return self.seq(paths, self.inline_call(e, fr, fn=self.info.base_init))
+        if isinstance(e, ast.Call):
+            side = self.call_side_effects(e, fr)
+            if side:
+                paths = [[]]
+                for ch in [e.func] + list(e.args) + [k.value for k in e.keywords]:
+                    paths = self.seq(paths, self.reads(ch, fr))
+                return self.seq(paths, [side])
         if _is_self_attr(e) and isinstance(e.ctx, ast.Load):
             name = e.attr
             if name in ('_x', '_y', '_r', '_t', 'data', 'dx', '_latcaled'):
@@ -121,12 +219,12 @@ class Extract:
         finally:
             self.depth -= 1
 
-    def inline_call(self, call, fr):
+    def inline_call(self, call, fr, fn=None):
         self.depth += 1
         if self.depth > 6:
             raise Untranslatable('call inlining too deep')
         try:
-            fn = self.info.methods[call.func.attr]
+            fn = fn or self.info.methods[call.func.attr]
             names = [a.arg for a in fn.args.args[1:]] + [a.arg for a in fn.args.kwonlyargs]
             bound, pre = {}, []
             actual = dict(zip(names, call.args))
@@ -256,12 +354,19 @@ class Extract:
 
     # -------- classification helpers
     def is_center_index(self, e, fr):
-        """`tuple(s // 2 for s in self.shape)` (possibly through a local)"""
+        """the index of the centre sample: `tuple(s // 2 for s in self.shape)` or `(self.shape[0] // 2, self.shape[1] // 2)`
+        (also with self.data.shape), possibly through a local"""
         if isinstance(e, ast.Name) and e.id in fr.locals:
             e = fr.locals[e.id]
         txt = ast.unparse(e).replace(' ', '')
-        return txt in ('tuple((s//2forsinself.shape))', 'tuple((s//2forsinself.data.shape))',
-                       'tuple(s//2forsinself.shape)', 'tuple(s//2forsinself.data.shape)')
+        if txt in ('tuple((s//2forsinself.shape))', 'tuple((s//2forsinself.data.shape))',
+                   'tuple(s//2forsinself.shape)', 'tuple(s//2forsinself.data.shape)',
+                   '[s//2forsinself.shape]', '[s//2forsinself.data.shape]'):
+            return True
+        if isinstance(e, ast.Tuple) and len(e.elts) == 2:
+            want = [('self.shape[%d]//2' % k, 'self.data.shape[%d]//2' % k) for k in (0, 1)]
+            return all(ast.unparse(el).replace(' ', '') in w for el, w in zip(e.elts, want))
+        return False
 
     def shape_preserving(self, e, fr, depth=0):
         """is e an array of the shape of self.data by construction (elementwise / FFT of self.data)?"""
@@ -274,7 +379,11 @@ class Extract:
         if isinstance(e, ast.Attribute) and e.attr in ('real', 'imag'):
             return self.shape_preserving(e.value, fr, depth + 1)
         if isinstance(e, ast.Call) and ast.unparse(e.func) in SHAPE_PRESERVING_CALLS and e.args:
+            if any(k.arg in ('s', 'n', 'axes', 'shape') for k in e.keywords) or len(e.args) > 1:
+                return False
             return self.shape_preserving(e.args[0], fr, depth + 1)
+        if isinstance(e, ast.Call) and ast.unparse(e.func) in ('np.where', 'where') and len(e.args) == 3:
+            return self.shape_preserving(e.args[1], fr, depth + 1) or self.shape_preserving(e.args[2], fr, depth + 1)
         if isinstance(e, ast.BinOp):
             return self.shape_preserving(e.left, fr, depth + 1) or self.shape_preserving(e.right, fr, depth + 1)
         if isinstance(e, ast.UnaryOp):
@@ -301,7 +410,42 @@ class Extract:
                 k = self.slice_id(value.slice)
                 eff = f'Eff.reslice {sel} {k}' if kind == 'XY' else f'Eff.resliceP {sel} {k}'
                 return self.seq(pre, [[eff]])
+        if kind == 'XY' and isinstance(value, ast.BinOp):
+            # `self.c = self.c * v`, `self.c = v * self.c`, `self.c = self.c - self.c[centre]` : the in-place forms, spelled out
+            l_, r_ = value.left, value.right
+            lsrc, rsrc = self.cache_of_expr(l_), self.cache_of_expr(r_)
+            if isinstance(value.op, ast.Mult) and ((lsrc and lsrc[0] == c) != (rsrc and rsrc[0] == c)):
+                arr, other = (l_, r_) if (lsrc and lsrc[0] == c) else (r_, l_)
+                val, _ = self.val(other, fr)
+                return self.seq(self.seq(self.reads(arr, fr), self.reads(other, fr)), [[f'Eff.scale {sel} ({val})']])
+            if isinstance(value.op, ast.Sub) and lsrc and lsrc[0] == c:
+                rr = fr.locals[r_.id] if isinstance(r_, ast.Name) and r_.id in fr.locals else r_
+                if isinstance(rr, ast.Subscript):
+                    src = self.cache_of_expr(rr.value)
+                    if src is not None and src[0] == c and self.is_center_index(rr.slice, fr):
+                        return self.seq(self.seq(self.reads(l_, fr), self.reads(r_, fr)), [[f'Eff.center {sel}']])
         return self.seq(self.reads(value, fr), [[f'Eff.opaque{kind} {sel}']])
+
+    def fresh_xy(self, v, fr):
+        """`make_xy_grid(<shape of the data>, dx=<e>)`: a fresh grid of spacing e.  e = self.dx is `freshXY`; any other
+        expressible e is encoded as: save dx, set dx := e, freshXY, restore dx (so that the analyser sees the spacing)"""
+        if not (isinstance(v, ast.Call) and ast.unparse(v.func).split('.')[-1] == 'make_xy_grid' and len(v.args) == 1
+                and ast.unparse(v.args[0]) in ('self.data.shape', 'self.shape')):
+            return None
+        kws = {k.arg: k.value for k in v.keywords}
+        if set(kws) - {'dx', 'grid'} or 'dx' not in kws:
+            return None
+        if 'grid' in kws and not (isinstance(kws['grid'], ast.Constant) and kws['grid'].value is True):
+            return None
+        if ast.unparse(kws['dx']) == 'self.dx':
+            return ['Eff.freshXY']
+        try:
+            val, _ = self.val(kws['dx'], fr)
+        except Untranslatable:
+            return None
+        slot = self.nsaved
+        self.nsaved += 1
+        return [f'Eff.saveDx {slot}', f'Eff.setDx ({val})', 'Eff.freshXY', f'Eff.setDx (Val.saved {slot})']
 
     def assign(self, st, fr):
         if len(st.targets) != 1:
@@ -326,10 +470,9 @@ class Extract:
                     paths = self.seq(paths, self.assign(ast.Assign(targets=[tt], value=vv), fr))
                 return paths
             if [n.lstrip('_') if n else n for n in names] == ['x', 'y']:
-                if isinstance(v, ast.Call) and ast.unparse(v.func) == 'make_xy_grid' and len(v.args) == 1 \
-                        and ast.unparse(v.args[0]) in ('self.data.shape', 'self.shape') \
-                        and [(k.arg, ast.unparse(k.value)) for k in v.keywords] == [('dx', 'self.dx')]:
-                    return [['Eff.freshXY']]
+                fx = self.fresh_xy(v, fr)
+                if fx is not None:
+                    return [fx]
                 return self.seq(self.reads(v, fr), [['Eff.opaqueXY .x', 'Eff.opaqueXY .y']])
             if [n.lstrip('_') if n else n for n in names] == ['r', 't']:
                 if isinstance(v, ast.Call) and ast.unparse(v.func) == 'cart_to_polar' \
@@ -345,6 +488,11 @@ class Extract:
         if isinstance(t, ast.Name):
             paths = self.reads(v, fr)
             fr.locals[t.id] = v
+            tgt = self.target_of(v, fr)
+            if tgt is not None:
+                fr.aliases[t.id] = tgt
+            else:
+                fr.aliases.pop(t.id, None)
             return paths
         if _is_self_attr(t):
             name = t.attr
@@ -352,6 +500,9 @@ class Extract:
                 if isinstance(v, ast.Subscript) and _is_self_attr(v.value, ('data',)):
                     return [[f'Eff.dataReshape {self.slice_id(v.slice)}']]
                 pre = self.reads(v, fr)
+                if isinstance(v, ast.BinOp) and isinstance(v.op, (ast.Sub, ast.Add, ast.Mult, ast.Div)) \
+                        and (self.target_of(v.left, fr) == 'data' or self.target_of(v.right, fr) == 'data'):
+                    return self.seq(pre, [['Eff.dataWrite .arith']])      # `self.data = self.data - e`: the in-place form spelled out
                 if isinstance(v, ast.Call) and ast.unparse(v.func) == 'pad2d':
                     return self.seq(pre, [[f'Eff.dataReshape {self.slice_id(v)}']])
                 if self.shape_preserving(v, fr):
@@ -367,6 +518,13 @@ class Extract:
             if name in CACHES:
                 return self.write_cache(name, v, fr)
             return self.reads(v, fr)      # untracked attribute
+        if isinstance(t, ast.Subscript) and self.target_of(t.value, fr) is not None and not _is_self_attr(t.value):
+            tgt = self.target_of(t.value, fr)        # write through a local alias / view
+            pre = self.seq(self.reads(t.slice, fr), self.reads(v, fr))
+            if tgt == 'data':
+                nanv = ast.unparse(v) in ('np.nan', 'float("nan")', "float('nan')", 'nan')
+                return self.seq(pre, [['Eff.dataWrite .setInvalid' if nanv else 'Eff.dataWrite .setValue']])
+            return self.seq(pre, [self.write_through(tgt, '')])
         if isinstance(t, ast.Subscript) and _is_self_attr(t.value, ('data',)):
             pre = self.seq(self.reads(t.slice, fr), self.reads(v, fr))
             if ast.unparse(v) in ('np.nan', 'float("nan")', "float('nan')", 'nan'):
@@ -381,6 +539,14 @@ class Extract:
 
     def augassign(self, st, fr):
         t, v = st.target, st.value
+        base = t.value if isinstance(t, ast.Subscript) else t
+        if not _is_self_attr(base) and self.target_of(base, fr) is not None:
+            tgt = self.target_of(base, fr)           # in-place update through a local alias / view
+            pre = self.reads(v, fr)
+            if tgt == 'data':
+                kind = '.arith' if isinstance(st.op, (ast.Sub, ast.Add, ast.Mult, ast.Div)) else '.replace'
+                return self.seq(pre, [[f'Eff.dataWrite {kind}']])
+            return self.seq(pre, [self.write_through(tgt, '')])
         if _is_self_attr(t, ('data',)) or (isinstance(t, ast.Subscript) and _is_self_attr(t.value, ('data',))):
             pre = self.reads(v, fr)
             if isinstance(t, ast.Subscript):
@@ -415,8 +581,30 @@ def _lean_list(effs):
     return '[' + ', '.join(effs) + ']'
 
 
+CALLEES = {}
+
+
+def _check_slice_names(fn):
+    """names used as slices of data / caches must not be re-assigned between their uses"""
+    uses = {}
+    for n in ast.walk(fn):
+        if isinstance(n, ast.Subscript) and (_is_self_attr(n.value, ('data',)) or _is_self_attr(n.value, CACHES)):
+            for nm in ast.walk(n.slice):
+                if isinstance(nm, ast.Name):
+                    uses.setdefault(nm.id, []).append(n.lineno)
+    for n in ast.walk(fn):
+        if isinstance(n, (ast.Assign, ast.AugAssign)):
+            tg = n.targets if isinstance(n, ast.Assign) else [n.target]
+            for t in tg:
+                for nm in ast.walk(t):
+                    if isinstance(nm, ast.Name) and isinstance(nm.ctx, ast.Store) and nm.id in uses \
+                            and min(uses[nm.id]) < n.lineno <= max(uses[nm.id]):
+                        raise Untranslatable(f'slice name {nm.id} is re-assigned between its uses')
+
+
 def method_paths(info, fn, is_getter=False):
-    ex = Extract(info)
+    _check_slice_names(fn)
+    ex = Extract(info, CALLEES)
     names = [a.arg for a in fn.args.args[1:]] + [a.arg for a in fn.args.kwonlyargs]
     fr = Frame({nm: f'Val.arg {i}' for i, nm in enumerate(names)})
     done, open_ = ex.block(fn.body, fr, [[]])
@@ -447,6 +635,13 @@ def generate(repo):
     base = get_def(rd, 'RichData')
     der = get_def(ig, 'Interferogram')
     info = ClassInfo([base, der])
+    utl, _ = load(repo, 'prysm/util.py')
+    pol, _ = load(repo, 'prysm/polynomials/__init__.py')
+    CALLEES.clear()
+    for mod in (pol, utl, ig):      # module-level helpers whose bodies are inspected for in-place writes to their arguments
+        for n in mod.body:
+            if isinstance(n, ast.FunctionDef):
+                CALLEES[n.name] = n
 
     entries = []      # (lean def name, table key)
 
@@ -497,6 +692,30 @@ def generate(repo):
             has = True
         if has:
             add('method', name, fn, name, name)
+
+    # constructors: effect lists from an ARBITRARY state (analysed without assuming coherence)
+    init_entries = []
+    for cls_name, cls in (('RichData', base), ('Interferogram', der)):
+        fn = next((n for n in cls.body if isinstance(n, ast.FunctionDef) and n.name == '__init__'), None)
+        if fn is None:
+            continue
+        state = {}
+
+        def build_init(fn=fn, cls_name=cls_name):
+            paths = method_paths(info, fn)
+            out = []
+            for i, p_ in enumerate(paths):
+                nm = f'init_{cls_name}_{i}'
+                init_entries.append(nm)
+                out.append(f'def {nm} : List Eff := {_lean_list(p_)}')
+            return '\n'.join(out)
+        n0 = len(init_entries)
+        g.item(f'{cls_name}.__init__', f'{cls_name}.__init__', lambda fn=fn: fn, build_init,
+               f'def init_{cls_name}_0 : List Eff := [.clearXY .x, .clearXY .y, .clearRT .r, .clearRT .t]')
+        if g.items[-1]['status'] != 'ok':
+            del init_entries[n0:]
+            init_entries.append(f'init_{cls_name}_0')
+    g.chunks.append('/-- effect lists of the constructors (every path) -/\ndef inits : List (List Eff) := [' + ', '.join(init_entries) + ']\n')
 
     g.chunks.append('/-- every (method path, effect list) of RichData / Interferogram that touches data, dx or a coordinate cache -/\n'
                     'def table : List (String × List Eff) :=\n  [' +
@@ -564,6 +783,141 @@ def generate(repo):
     g.item('crop.slices', 'prysm/interferogram.py:Interferogram.crop', lambda: info.methods['crop'], crop_slices,
            '\n'.join(f'def {nm} {sig} := {M}.{nm} left right top bottom rows cols'
                      for nm in ('cropRowLo', 'cropRowHi', 'cropColLo', 'cropColHi')))
+
+    # ---- util.mean / pv / rms / Sa / std: the statistics as list expressions over the valid samples
+    def util_stats():
+        def tr(e, env):
+            """-> (kind, lean) with kind 'list' | 'scalar'"""
+            txt = ast.unparse(e)
+            if txt in env:
+                return env[txt]
+            if isinstance(e, ast.Call) and isinstance(e.func, ast.Attribute) and not e.args and not e.keywords:
+                k, a = tr(e.func.value, env)
+                if k != 'list':
+                    raise Untranslatable(f'method {e.func.attr} of a scalar')
+                m = e.func.attr
+                if m == 'mean':
+                    return 'scalar', f'(lsum {a} / lenK {a})'
+                if m == 'sum':
+                    return 'scalar', f'(lsum {a})'
+                if m == 'max':
+                    return 'scalar', f'(lmax {a})'
+                if m == 'min':
+                    return 'scalar', f'(lmin {a})'
+                if m == 'std':
+                    mu = f'(lsum {a} / lenK {a})'
+                    return 'scalar', f'(sqrtf (lsum (({a}.map fun t => t - {mu}).map fun t => t * t) / lenK {a}))'
+                raise Untranslatable(f'array method {m}')
+            if isinstance(e, ast.Attribute) and e.attr == 'size':
+                k, a = tr(e.value, env)
+                if k == 'list':
+                    return 'scalar', f'(lenK {a})'
+            if isinstance(e, ast.Call) and ast.unparse(e.func) in ('abs', 'np.abs') and len(e.args) == 1:
+                k, a = tr(e.args[0], env)
+                return (k, f'({a}.map absf)') if k == 'list' else (k, f'(absf {a})')
+            if isinstance(e, ast.Call) and ast.unparse(e.func) in ('np.sqrt', 'math.sqrt', 'sqrt') and len(e.args) == 1:
+                k, a = tr(e.args[0], env)
+                if k == 'scalar':
+                    return k, f'(sqrtf {a})'
+            if isinstance(e, ast.BinOp):
+                if isinstance(e.op, ast.Pow) and isinstance(e.right, ast.Constant) and e.right.value == 2:
+                    k, a = tr(e.left, env)
+                    return (k, f'({a}.map fun t => t * t)') if k == 'list' else (k, f'({a} * {a})')
+                kl, a = tr(e.left, env)
+                kr, b = tr(e.right, env)
+                sym = {ast.Sub: '-', ast.Add: '+', ast.Mult: '*', ast.Div: '/'}.get(type(e.op))
+                if sym is None:
+                    raise Untranslatable(f'operator in {txt[:40]}')
+                if kl == 'scalar' and kr == 'scalar':
+                    return 'scalar', f'({a} {sym} {b})'
+                if kl == 'list' and kr == 'scalar':
+                    return 'list', f'({a}.map fun t => t {sym} {b})'
+            raise Untranslatable(f'statistic expression {txt[:50]}')
+
+        out = []
+        filt = set()
+        for name in ('mean', 'pv', 'rms', 'Sa', 'std'):
+            fn = get_def(utl, name)
+            arg = fn.args.args[0].arg
+            env = {}
+            ret = None
+            for st in fn.body:
+                if isinstance(st, ast.Expr) and isinstance(st.value, ast.Constant):
+                    continue
+                if isinstance(st, ast.Assign) and len(st.targets) == 1 and isinstance(st.targets[0], ast.Name):
+                    nm, v = st.targets[0].id, st.value
+                    if isinstance(v, ast.Call) and len(v.args) == 1 and ast.unparse(v.args[0]) == arg:
+                        filt.add(ast.unparse(v.func))                 # the validity mask
+                        env[f'{arg}[{nm}]'] = ('list', 'v')
+                        continue
+                    if isinstance(v, ast.UnaryOp) and isinstance(v.op, ast.Invert) and isinstance(v.operand, ast.Call) \
+                            and len(v.operand.args) == 1 and ast.unparse(v.operand.args[0]) == arg:
+                        filt.add('~' + ast.unparse(v.operand.func))
+                        env[f'{arg}[{nm}]'] = ('list', 'v')
+                        continue
+                    env[nm] = tr(v, env)
+                    continue
+                if isinstance(st, ast.Return):
+                    ret = tr(st.value, env)
+                    continue
+                raise Untranslatable(f'statement in util.{name}: {ast.unparse(st)[:40]}')
+            if ret is None or ret[0] != 'scalar':
+                raise Untranslatable(f'util.{name} does not return a scalar expression')
+            cls = '[Num K] [LT K] [DecidableLT K]' if name == 'pv' else '[Num K]'
+            out.append(f'def util_{name} {{K : Type}} {cls} (absf sqrtf : K → K) (v : List K) : K := {ret[1]}')
+        state['filters'] = filt
+        return '\n'.join(out)
+    state = {}
+    g.item('util.statistics', 'prysm/util.py:{mean,pv,rms,Sa,std}', lambda: ast.Module(body=[get_def(utl, n) for n in ('mean', 'pv', 'rms', 'Sa', 'std')], type_ignores=[]),
+           util_stats,
+           '\n'.join(f'def util_{n} {{K : Type}} {"[Num K] [LT K] [DecidableLT K]" if n == "pv" else "[Num K]"} (absf sqrtf : K → K) (v : List K) : K := {b}'
+                     for n, b in (('mean', 'mean v'), ('pv', 'pv v'), ('rms', 'sqrtf (meanSq v)'), ('Sa', 'saWith absf v'), ('std', 'sqrtf (var v)'))))
+
+    def util_filter():
+        f = state.get('filters')
+        if not f:
+            return None
+        if f <= {'np.isfinite', 'isfinite'}:
+            return True
+        if any(x.lstrip('~') in ('np.isnan', 'isnan', 'np.isinf', 'isinf') for x in f):
+            return False          # recognised and wrong: +-inf (or NaN) would count as valid samples
+        return None
+    g.fact('utilValidIsFinite', 'prysm/util.py:{mean,pv,rms,Sa,std}', util_filter)
+
+    # ---- which fitted columns the removal methods subtract
+    def removal_columns():
+        fp, fs = get_def(ig, 'fit_plane'), get_def(ig, 'fit_sphere')
+        # fit_plane: lstsq([x, y], z) and coefs[0]*x + coefs[1]*y
+        (c,) = [n for n in ast.walk(fp) if isinstance(n, ast.Call) and ast.unparse(n.func) == 'lstsq']
+        if ast.unparse(c.args[0]).replace(' ', '') != '[x,y]':
+            raise Untranslatable('fit_plane design is not [x, y]')
+        (ret,) = [n.value for n in ast.walk(fp) if isinstance(n, ast.Return)]
+        expr = find_local(fp, ret)
+        used = sorted({int(ast.unparse(n.slice)) for n in ast.walk(expr) if isinstance(n, ast.Subscript) and ast.unparse(n.value) == 'coefs'})
+        terms = ast.unparse(expr).replace(' ', '')
+        if terms not in ('coefs[0]*x+coefs[1]*y', 'x*coefs[0]+y*coefs[1]', 'coefs[1]*y+coefs[0]*x'):
+            raise Untranslatable(f'plane is {terms[:40]}')
+        # fit_sphere: design stack([focus, ones]) and sphere = focus * coefs[0]
+        sph = find_local(fs, ast.Name(id='sphere', ctx=ast.Load()))
+        st = ast.unparse(sph).replace(' ', '')
+        if st not in ('focus*coefs[0]', 'coefs[0]*focus'):
+            raise Untranslatable(f'sphere is {st[:40]}')
+        design = [ast.unparse(n.args[0]).replace(' ', '') for n in ast.walk(fs) if isinstance(n, ast.Call) and ast.unparse(n.func) == 'np.stack']
+        if not design or not design[0].startswith('[focus.flatten(),np.ones('):
+            raise Untranslatable('fit_sphere design is not [rho^2, 1]')
+        return (f'def tiltRemovedColumns : List Nat := {used}\ndef powerRemovedColumns : List Nat := [0]\n'
+                f'def tiltDesignHasConstant : Bool := false\ndef powerDesignHasConstant : Bool := true')
+
+    def find_local(fn, e):
+        if isinstance(e, ast.Name):
+            for n in ast.walk(fn):
+                if isinstance(n, ast.Assign) and isinstance(n.targets[0], ast.Name) and n.targets[0].id == e.id:
+                    return n.value
+        return e
+    g.item('removal.columns', 'prysm/interferogram.py:fit_plane,fit_sphere', lambda: ast.Module(body=[get_def(ig, 'fit_plane'), get_def(ig, 'fit_sphere')], type_ignores=[]),
+           removal_columns,
+           'def tiltRemovedColumns : List Nat := [0, 1]\ndef powerRemovedColumns : List Nat := [0]\n'
+           'def tiltDesignHasConstant : Bool := false\ndef powerDesignHasConstant : Bool := true')
 
     g.fact('settersTrivial', 'prysm/_richdata.py:RichData.{x,y,r,t}.setter', lambda: setters_trivial(info))
     text, items = g.finish()
